@@ -154,11 +154,21 @@ class LiftSubgraphInitializersToMainGraphPass(ir.passes.InPlacePass):
     def call(self, model: ir.Model) -> ir.passes.PassResult:
         count = 0
         registered_initializer_names: dict[str, int] = {}
-        # Collect main graph output and input names to avoid collisions
-        main_graph_output_names = {
-            output.name for node in model.graph for output in node.outputs if output.name
-        }
-        main_graph_input_names = {input.name for input in model.graph.inputs if input.name}
+        # Collect the names defined anywhere in the model: a lifted initializer is visible
+        # in every subgraph, so it must not collide with (or be shadowed by) any of them
+        taken_names: set[str] = set(model.graph.initializers)
+        for graph in model.graphs():
+            taken_names.update(input.name for input in graph.inputs if input.name)
+            taken_names.update(
+                output.name for node in graph for output in node.outputs if output.name
+            )
+            if graph is not model.graph:
+                # Initializers that stay in their subgraph
+                taken_names.update(
+                    name
+                    for name, initializer in graph.initializers.items()
+                    if initializer.is_graph_input() or initializer.is_graph_output()
+                )
         for graph in model.graphs():
             if graph is model.graph:
                 continue
@@ -184,17 +194,14 @@ class LiftSubgraphInitializersToMainGraphPass(ir.passes.InPlacePass):
                 # to a unique name in the main graph that doesn't conflict with
                 # existing initializers, node outputs, or graph inputs
                 new_name = name
-                while (
-                    new_name in model.graph.initializers
-                    or new_name in main_graph_output_names
-                    or new_name in main_graph_input_names
-                ):
+                while new_name in taken_names:
                     if name in registered_initializer_names:
                         registered_initializer_names[name] += 1
                     else:
                         registered_initializer_names[name] = 1
                     new_name = f"{name}_{registered_initializer_names[name]}"
                 initializer.name = new_name
+                taken_names.add(new_name)
                 model.graph.register_initializer(initializer)
                 count += 1
                 logger.debug(
